@@ -70,6 +70,9 @@ func isPure(in ssa.Instruction, x *Exec) bool {
 			if ms := x.methodSpec(c); ms != nil && ms.Mode == "fn" {
 				return true
 			}
+			if x.ifaceOfPurePkg(c) {
+				return true // a method of an interface declared in a package assumed not to write caller-visible memory
+			}
 			impls := x.implementers(c.Value.Type())
 			if len(impls) == 0 {
 				return false
